@@ -130,7 +130,8 @@ def repo_rev():
 
 def write_replay(prop, seed, res, minimized):
     os.makedirs(REPLAYS, exist_ok=True)
-    path = os.path.join(REPLAYS, f"{prop.ID}-{seed}-{res['index']}.json")
+    # VERIF_REPLAY_TAG keeps concurrent batches of one property (sensitivity shards) from sharing file names
+    path = os.path.join(REPLAYS, f"{prop.ID}-{seed}-{res['index']}{os.environ.get('VERIF_REPLAY_TAG', '')}.json")
     doc = {
         "property": prop.ID,
         "master_seed": seed,
